@@ -27,6 +27,8 @@ template<class S>
 struct NoD2<smooth::Galilei<S>> : std::true_type {};
 template<class S, int K>
 struct NoD2<smooth::SE_K_3<S, K>> : std::true_type {};
+template<class... Gs>
+struct NoD2<smooth::Bundle<Gs...>> : std::bool_constant<(NoD2<Gs>::value || ...)> {};
 template<class G>
 constexpr bool has_d2 = !NoD2<G>::value;
 
